@@ -251,7 +251,46 @@ class C07(Profile):
         return cfg
 
 
-PROFILES = {"C07": C07(), "C11": C11(), "C08": C08(), "C02": C02(), "C09": C09(), "C10": C10()}
+class C15(Profile):
+    name = "C15"
+    steps = (30, 55)
+    runs = {"quick": 1000, "thorough": 40000}
+    expected_probes = ["protocol_checked", "rho_checked",
+                       "same_state_other_order", "qpu_failure_propagated",
+                       "retry_after_qpu_failure"]
+    stubs = Profile.stubs + [
+        "simulated QPU: the tomography `experiment` callback computes exact "
+        "dual-rail outcome probabilities from each handed circuit's public "
+        "U_full/heralds with the harness's own permanent",
+        "SimSet: module-global `set` injected into tomography.utils et al., "
+        "iteration order = f(permutation seed)"]
+
+    @property
+    def monitors(self):
+        from .tomo import TomoMonitor  # noqa: PLC0415
+        return [TomoMonitor]
+
+    @property
+    def clients(self):
+        from .tomo import TomoClient  # noqa: PLC0415
+        return [(TomoClient, 6), (cl.Bystander, 0.7)]
+
+    def swarm(self, rng):
+        cfg = self.base_cfg(rng)
+        cfg["weights"] = {"tomographer": 6, "bystander": rng.choice([0, 0.7, 1.5])}
+        cfg["faults"] = rng.random() < 0.75
+        cfg["use_shared"] = True
+        cfg["simset"] = True
+        cfg["max_params"] = 0
+        cfg["p_param"] = 0
+        cfg["convert"] = rng.random() < 0.5
+        cfg["emu_max_modes"] = 6
+        cfg["tomo_qubits"] = [1, 2, 2]
+        cfg["min_circuits"] = 0
+        return cfg
+
+
+PROFILES = {"C15": C15(), "C07": C07(), "C11": C11(), "C08": C08(), "C02": C02(), "C09": C09(), "C10": C10()}
 
 
 def get(name: str) -> Profile:
